@@ -8,6 +8,7 @@ import FcpptProofs.C03.Labels
 import FcpptProofs.C03.Names
 import FcpptProofs.C03.Leaves
 import FcpptProofs.C03.Index
+import FcpptProofs.C03.Shape
 /-!
 # C03 — property theorems (see notes/C03.md for the clause-by-clause coverage)
 
@@ -479,6 +480,16 @@ theorem parseTop_result_labels {f : Nat} {p : OP} {args : List String} {r : Rec}
     · injection h with h; injection h with h1 h2; subst h1
       exact parse_labels _ _ _ _ hp
     · cases h
+
+/-- `many`: every field of the result is a vector and all vectors have the same length (the number of iterations) -/
+theorem many_fields_are_vectors_of_one_length {f : Nat} {q : OP} {st : List Arg} {c : Ctx} {st' : List Arg} {r : Rec} {lg : Log}
+    (h : parse f (.many q) st c = .ok (st', r, lg)) : ∃ k, ∀ x ∈ r, ∃ vs, x.2 = Val.list vs ∧ vs.length = k :=
+  many_all_lists f q st c h
+
+/-- `optional`: either every field is absent or every field is present -/
+theorem optional_fields_all_or_nothing {f : Nat} {q : OP} {st : List Arg} {c : Ctx} {st' : List Arg} {r : Rec} {lg : Log}
+    (h : parse (f + 1) (.optional q) st c = .ok (st', r, lg)) :
+    (∀ x ∈ r, x.2 = Val.none) ∨ (∀ x ∈ r, ∃ v, x.2 = Val.some v) := optional_all_or_nothing h
 
 /-! ## non-vacuity -/
 
